@@ -201,7 +201,7 @@ func scenario(seed int64, sn int) (int, int) {
 	if prof.pairs > 0 {
 		r := rand.New(rand.NewSource(seed))
 		for g := 0; g < prof.pairs; g++ {
-			if g%3 == 2 {
+			if g%2 == 1 {
 				ntran.Add(int64(raceTemplate(r)))
 			} else {
 				ntran.Add(int64(groupInterleaved(r)))
@@ -703,6 +703,40 @@ func peekRows(td tableDef) [][]int {
 	return rows
 }
 
+// freshRow: a row whose key columns do not collide with a committed row (so the insert succeeds)
+func (c *client) freshRow(td tableDef) []int {
+	rows := peekRows(td)
+	for try := 0; try < 20; try++ {
+		row := c.randRowPlain(td)
+		ok := true
+		for _, x := range rows {
+			if x[0] == row[0] && (td.ncols < 2 || td.name != "t2" || x[1] == row[1]) {
+				ok = false
+			}
+		}
+		if ok {
+			return row
+		}
+	}
+	return c.randRowPlain(td)
+}
+
+func (c *client) randRowPlain(td tableDef) []int {
+	h := c.hot
+	c.hot = nil
+	row := c.randRow(td)
+	c.hot = h
+	if td.opt[len(row)-1] {
+		// unique / optional columns: leave them empty to avoid unrelated duplicate errors
+		for i := 1; i < len(row); i++ {
+			if td.opt[i] {
+				row[i] = 0
+			}
+		}
+	}
+	return row
+}
+
 // raceTemplate runs one directed two-transaction race: B commits a change between an
 // observation of A and A's own write + commit. The real outcome (who fails, what is
 // visible) is whatever the code does; the trace specification decides. Returns the
@@ -743,7 +777,7 @@ func raceTemplate(r *rand.Rand) int {
 		}
 		return td
 	}
-	kind := r.Intn(6)
+	kind := []int{0, 1, 2, 2, 3, 3, 2, 3, 4, 5}[r.Intn(10)]
 	if hasFk && r.Intn(2) == 0 {
 		kind = 6 + r.Intn(2)
 	}
@@ -802,11 +836,8 @@ func raceTemplate(r *rand.Rand) int {
 		}
 		b.finish()
 		if !a.dead {
-			if r.Intn(2) == 0 {
-				a.output(td)
-			} else {
-				a.output(other(td))
-			}
+			a.force = a.freshRow(td)
+			a.output(td)
 		}
 	case 4: // both insert the same key
 		td := prof.tables[r.Intn(len(prof.tables))]
